@@ -27,12 +27,33 @@ type FaultFS struct {
 	Reads bool
 	// nextKind, when set, fails the next call whose description starts with it (e.g. "sync "), once.
 	nextKind string
+	// nextSuffix, when set with nextKind, additionally requires the file name to end with it (e.g. ".psg").
+	nextSuffix string
+	// nextPartial makes the failed write pass a prefix (half of the bytes, at least 1) through before failing.
+	nextPartial bool
+	// partialNow is set by hit for the call that is being failed when nextPartial was set.
+	partialNow bool
+	// nextMinOff, when > 0, restricts FailNextWrite to WriteAt calls at an offset >= nextMinOff (record appends, not
+	// the header of a new file).
+	nextMinOff int64
+}
+
+// FailNextWrite fails the next write to a file whose name ends with suffix, once. With partial the first half of
+// the bytes reaches the file and the call returns (n>0, ErrInjected); otherwise nothing is written.
+func (f *FaultFS) FailNextWrite(suffix string, partial bool, minOff int64) {
+	f.mu.Lock()
+	f.nextMinOff = minOff
+	f.nextKind = "write "
+	f.nextSuffix = suffix
+	f.nextPartial = partial
+	f.Fired = ""
+	f.mu.Unlock()
 }
 
 // ClearNext cancels a pending FailNext.
 func (f *FaultFS) ClearNext() {
 	f.mu.Lock()
-	f.nextKind = ""
+	f.nextKind, f.nextSuffix, f.nextPartial, f.nextMinOff = "", "", false, 0
 	f.mu.Unlock()
 }
 
@@ -40,6 +61,7 @@ func (f *FaultFS) ClearNext() {
 func (f *FaultFS) FailNext(kind string) {
 	f.mu.Lock()
 	f.nextKind = kind + " "
+	f.nextSuffix, f.nextPartial, f.nextMinOff = "", false, 0
 	f.Fired = ""
 	f.mu.Unlock()
 }
@@ -59,11 +81,17 @@ func (f *FaultFS) Disarm() {
 	f.mu.Unlock()
 }
 
-func (f *FaultFS) hit(desc string) bool {
+func (f *FaultFS) hit(desc string) bool { return f.hitOff(desc, -1) }
+
+// hitOff is hit for a write at a known offset (-1: unknown).
+func (f *FaultFS) hitOff(desc string, off int64) bool {
 	f.mu.Lock()
 	defer f.mu.Unlock()
-	if f.nextKind != "" && len(desc) >= len(f.nextKind) && desc[:len(f.nextKind)] == f.nextKind {
-		f.nextKind = ""
+	f.partialNow = false
+	if f.nextKind != "" && (f.nextMinOff == 0 || off >= f.nextMinOff) && len(desc) >= len(f.nextKind) && desc[:len(f.nextKind)] == f.nextKind &&
+		(f.nextSuffix == "" || (len(desc) >= len(f.nextSuffix) && desc[len(desc)-len(f.nextSuffix):] == f.nextSuffix)) {
+		f.partialNow = f.nextPartial
+		f.nextKind, f.nextSuffix, f.nextPartial, f.nextMinOff = "", "", false, 0
 		f.Fired = desc
 		return true
 	}
@@ -114,15 +142,32 @@ type faultFile struct {
 	name string
 }
 
+// takePartial reports (and clears) whether the call just failed by hit is to write a prefix first.
+func (f *FaultFS) takePartial() bool {
+	f.mu.Lock()
+	defer f.mu.Unlock()
+	p := f.partialNow
+	f.partialNow = false
+	return p
+}
+
 func (h *faultFile) Write(p []byte) (int, error) {
 	if h.f.hit("write " + h.name) {
+		if h.f.takePartial() && len(p) > 1 {
+			n, _ := h.File.Write(p[:len(p)/2])
+			return n, ErrInjected
+		}
 		return 0, ErrInjected
 	}
 	return h.File.Write(p)
 }
 
 func (h *faultFile) WriteAt(p []byte, off int64) (int, error) {
-	if h.f.hit("write " + h.name) {
+	if h.f.hitOff("write "+h.name, off) {
+		if h.f.takePartial() && len(p) > 1 {
+			n, _ := h.File.WriteAt(p[:len(p)/2], off)
+			return n, ErrInjected
+		}
 		return 0, ErrInjected
 	}
 	return h.File.WriteAt(p, off)
